@@ -126,13 +126,26 @@ TraceFlush == IsEvent("Flush") /\ Flush /\ ResIs
 \* bytes finalize appends after the last entry
 TailLen(ww) == LET fs == PreClose(ww).files IN
    CdSize(fs) + (IF Len(fs) > ThrN THEN Z64Rec + Z64Loc ELSE 0) + EOCDSize + ww.comment.len
+\* The compressed size of the entry finalize closes is inferred from where the sink stands afterwards.  When the directory
+\* of an appended archive was moved up to the old end (FinalizeF's gap, D10) that position no longer determines it; the
+\* independently lexed layout that follows the call binds the value instead (csize is the environment's choice).
+NextLayout == LET S == {k \in (l + 1)..(IF l + 3 < Len(Rec) THEN l + 3 ELSE Len(Rec)) : Rec[k].ev = "Layout" /\ Rec[k].sc = ev.sc} IN
+              IF S = {} THEN 0 ELSE CHOOSE k \in S : \A j \in S : k <= j
+FinCs ==
+   LET direct == CsFrom(ev.pos - TailLen(w))
+       k == NextLayout
+       n == Len(PreClose(w).files) IN
+   IF ~NeedsCs(w) \/ ~w.foreign \/ k = 0 \/ n = 0 THEN direct
+   ELSE LET lexed == IF Rec[k].L.ok /\ Len(Rec[k].L.cd) = n THEN Rec[k].L.cd[n].csize ELSE direct IN
+        \* (both "large entry, no gap" and "small entry, gap" can explain the same final position: the lexed size decides)
+        IF CsOk(w, lexed) /\ FinalizeF(w, lexed).ok /\ FinalizeF(w, lexed).w.pos = ev.pos THEN lexed ELSE direct
 TraceFinish ==
    /\ IsEvent("Finish")
-   /\ LET cs == CsFrom(ev.pos - TailLen(w)) IN CloseGuard(cs, w.comment.len) /\ Finish(cs)
+   /\ LET cs == FinCs IN CloseGuard(cs, w.comment.len) /\ Finish(cs)
    /\ ResIs /\ PosOk
 TraceDrop ==
    /\ IsEvent("Drop")
-   /\ LET cs == CsFrom(ev.pos - TailLen(w)) IN
+   /\ LET cs == FinCs IN
         Check(w.comp # Closed /\ FinalizeF(w, cs).ok => CloseGuard(cs, w.comment.len)) /\ Drop(cs)
    /\ ResIs
    /\ Check(w'.fin => PosOk)
